@@ -70,22 +70,42 @@ func c14Drive(args []string) int {
 	}
 	r := rng(1414)
 	for round := 0; round < rounds; round++ {
-		// same schema: all goroutines run the same item at once
-		same := r.Intn(len(items))
-		var wg sync.WaitGroup
-		start := make(chan struct{})
-		for g := 0; g < G; g++ {
-			wg.Add(1)
-			go func(g int) {
-				defer wg.Done()
-				<-start
-				for k := 0; k < 3; k++ {
-					record("same-schema", g, same, fpAll(transcriptOf(items[same].sch, bytes.NewReader(items[same].Input), 100000), "full"))
-				}
-			}(g)
+		// fresh Schema objects for every round: their first use is concurrent (a schema runtime that is completed lazily
+		// on first use would be warmed, and the lazy write hidden, by the serial golden run above)
+		fresh := make([]*corpusItem, len(items))
+		for i, it := range items {
+			sch, e, p := newSchema(it.Schema)
+			if e != nil || p != "" {
+				fmt.Println("error: schema", it.Name, e, p)
+				return 3
+			}
+			fresh[i] = &corpusItem{Name: it.Name, Format: it.Format, Schema: it.Schema, Input: it.Input, sch: sch}
 		}
-		close(start)
-		wg.Wait()
+		// same schema: for every item in turn, all goroutines start their first transform over one fresh Schema at once
+		var wg sync.WaitGroup
+		_ = r
+		for same := range items {
+			start := make(chan struct{})
+			for g := 0; g < G; g++ {
+				wg.Add(1)
+				go func(g, same int) {
+					defer wg.Done()
+					<-start
+					record("same-schema", g, same, fpAll(transcriptOf(fresh[same].sch, bytes.NewReader(items[same].Input), 100000), "full"))
+				}(g, same)
+			}
+			close(start)
+			wg.Wait()
+		}
+		// and once more on schemas that were never used before, for the mixed phase
+		for i, it := range items {
+			sch, e, p := newSchema(it.Schema)
+			if e != nil || p != "" {
+				fmt.Println("error: schema", it.Name, e, p)
+				return 3
+			}
+			fresh[i] = &corpusItem{Name: it.Name, Format: it.Format, Schema: it.Schema, Input: it.Input, sch: sch}
+		}
 		// different schemas: every goroutine walks the corpus from its own offset
 		start2 := make(chan struct{})
 		for g := 0; g < G; g++ {
@@ -94,8 +114,8 @@ func c14Drive(args []string) int {
 				defer wg.Done()
 				<-start2
 				for k := 0; k < len(items); k++ {
-					i := (g*7 + k + round) % len(items)
-					record("mixed-schemas", g, i, fpAll(transcriptOf(items[i].sch, bytes.NewReader(items[i].Input), 100000), "full"))
+					i := (g/2*7 + k + round) % len(items) // pairs of goroutines meet on the same fresh schema at the same time
+					record("mixed-schemas", g, i, fpAll(transcriptOf(fresh[i].sch, bytes.NewReader(items[i].Input), 100000), "full"))
 				}
 			}(g)
 		}
